@@ -97,7 +97,8 @@ CONSTANTS
   ChalKinds,        \* subset of {"none","mal","uns","bnr","b1","b2","t","bt"}
   FaultKinds,       \* subset of {"nf","e5","err"}
   RedirTo,          \* set of <<host, scheme>> a 307 may point to
-  TokReplies,       \* subset of {"tokr","deny","err"} (besides the natural "tok")
+  TokReplies,       \* subset of {"tokr","deny","err","bad"} (besides the natural "tok"); bad = 200 with a body
+                    \* that bearerToken cannot be decoded from (also when it carries a good token)
   ForeignRealms,    \* realms <<host, scheme>> an unconfigured host may name (besides X)
   LocTo             \* set of <<host, scheme>> an upload Location may name instead of the serving host
 
@@ -414,7 +415,8 @@ TokReply ==
                     /\ Msg(tk.to, tk.sch, secs, IF k[3] # k[1] THEN "foreign-handler" ELSE "own-handler")
                     /\ UNCHANGED <<au, pc, ph, hosts, cur, rq, gc, loc, sess, again, sg>>
                [] r = "deny" /\ tk.stage = "get" -> au' = au /\ GenFail
-               [] r = "err" -> au' = au /\ GenFail
+               [] r \in {"err", "bad"} -> au' = au /\ GenFail   \* validateResponse: a decode error is not ErrHTTPUnauthorized,
+                                                               \* no fall through from tryPost to tryGet, b.token untouched
   /\ UNCHANGED <<cf, named>>
 
 (***************************************************************************)
